@@ -37,6 +37,12 @@ def gen_family(seed, fam):
         for n in r.choice(corpus.VARIANT_PAIRS):
             if n not in chosen:
                 chosen.append(n)
+    state_pair = None
+    if pair is None and r.random() < 0.08:
+        state_pair = r.choice(corpus.STATE_PAIRS)
+        for n in state_pair:
+            if n not in chosen:
+                chosen.append(n)
     nsrc = r.randrange(1, 5)
     while len(chosen) < nsrc:
         n = r.choice(pool_src)[0]
@@ -118,6 +124,11 @@ def gen_family(seed, fam):
                 c['ra'] = r.random() < 0.5
         templates.append(c)
     feeder = consumer = None
+    if state_pair is not None:
+        for k, srcname in ((0, state_pair[0]), (1, state_pair[1])):
+            templates[k] = {'api': 'minify', 'src': chosen.index(srcname), 'kw': dict(templates[k].get('kw', {})) if templates[k]['api'] == 'minify' else {},
+                            'ra': 'omit'}
+        feeder, consumer = 0, 1
     if pair is not None:
         # feeder and consumer both go through the shared list with rename_globals on
         for k, srcname in ((0, pair[0]), (1, pair[1])):
